@@ -750,7 +750,7 @@ def fixtures():
             # superstate target without initial whose first entry is a nested superstate; multi-source with
             # transition-level conditions; hooks of every kind at both levels; payload
             _ev('start', _tr(['Idle', 'Done'], 'Outer', guards=['gt1'], unless=['ut1'], before=['bt1'], after=['at1'], around=['wt1']),
-                payload=pl, guards=['ge1', 'ge2'], unless=['ue1'], before=['be1'], after=['ae1'], around=['we1']),
+                payload=pl, guards=['ge1', 'fuelOK'], unless=['ue1'], before=['be1'], after=['ae1'], around=['we1']),
             # the same hooks at event and at transition level
             _ev('reset', _tr(['Done'], 'Idle', guards=['gr1'], unless=['ur1'], before=['br1'], around=['wr1']), guards=['gr1', 'gr2'], unless=['ur1'], before=['br1'], around=['wr1']),
             # outer superstate as a source from deep leaves; two transitions, hooks only on the first
@@ -772,6 +772,9 @@ def fixtures():
         d.append(('dynamic', True))
         d.append(('states', forest))
         d.append(('events', evs))
+        if concrete:
+            # the same definition with its sections in another order: `events` and `states` before `initial`
+            d = [en for en in d if en[0] in ('events', 'states')] + [en for en in d if en[0] not in ('events', 'states')]
         out.append(d)
     # typestate-only twin of the first fixture
     d0 = [en for en in out[0] if en[0] != 'dynamic']
@@ -789,11 +792,15 @@ def fixtures():
     # the dynamic API without any event: no `events` key, and an empty `events {}` block
     out.append([('name', 'M'), ('initial', 'A'), ('dynamic', True), ('states', [('leaf', 'A', 'D0'), ('leaf', 'B', None)])])
     out.append([('name', 'M'), ('initial', 'A'), ('context', 'Ctx'), ('dynamic', True), ('states', [('leaf', 'A', None)]), ('events', [])])
-    # names whose concatenations coincide ("Tasks"+"end" = "Task"+"send"), one state a prefix of another
+    # names whose concatenations coincide, one state a prefix of another: "Tasks"+"end" = "Task"+"send" in lower case,
+    # "Open"+"HalfClose" = "OpenHalf"+"Close" in PascalCase and "open"_"half_close" = "open_half"_"close" in snake_case
+    # (a key built by gluing a state to an event, with or without a separator, identifies two different pairs)
     out.append([('name', 'M'), ('initial', 'Task'), ('dynamic', True),
-                ('states', [('leaf', 'Task', None), ('leaf', 'Tasks', 'D1'), ('leaf', 'Load', None), ('leaf', 'Loaded', None)]),
+                ('states', [('leaf', 'Task', None), ('leaf', 'Tasks', 'D1'), ('leaf', 'Load', None), ('leaf', 'Loaded', None),
+                            ('leaf', 'Open', None), ('leaf', 'OpenHalf', 'D0')]),
                 ('events', [_ev('end', _tr(['Tasks'], 'Load')), _ev('send', _tr(['Task'], 'Tasks')),
-                            _ev('ed', _tr(['Load'], 'Loaded')), _ev('d', _tr(['Loaded'], 'Task'))])])
+                            _ev('ed', _tr(['Load'], 'Loaded')), _ev('d', _tr(['Loaded'], 'Open')),
+                            _ev('half_close', _tr(['Open'], 'OpenHalf')), _ev('close', _tr(['OpenHalf'], 'Task'))])])
     # typestate-only look-alikes: two states with one snake_case spelling, exactly one carrying data
     out.append([('name', 'M'), ('initial', 'IOReady'),
                 ('states', [('leaf', 'IOReady', 'D2'), ('leaf', 'IoReady', None), ('leaf', 'Idle', None)]),
